@@ -93,10 +93,11 @@ def _sqlite_int_divide_expr(dbmodel, expression):
 
     e0 = dbmodel.expr_to_sql(expression.args[0], want_inline_parens=True)
     e1 = dbmodel.expr_to_sql(expression.args[1], want_inline_parens=True)
-    # integers stay integers and exact (the floored remainder is taken off first); everything else divides as floats
+    # integers stay integers and exact: the truncated quotient, one less when the signs differ and something remains
+    # (no sum that could leave the 64 bit range); everything else divides as floats
     return (
         f"(CASE WHEN (typeof({e0}) = 'integer') AND (typeof({e1}) = 'integer')"
-        f" THEN (({e0} - ((({e0} % {e1}) + {e1}) % {e1})) / {e1})"
+        f" THEN (({e0} / {e1}) - ((({e0} % {e1}) != 0) AND (({e0} < 0) != ({e1} < 0))))"
         f" ELSE FLOOR({e0} / (1.0 * {e1})) END)"
     )
 
